@@ -255,14 +255,16 @@ Lemma check_loop_sound k kr roles : check_loop k kr roles = true ->
     (forall i, i < length roles -> EF true (thread_in_cs i) s).
 Proof.
   unfold check_loop. intros H s Hr.
-  repeat (apply andb_true_iff in H as [H ?H]).
-  pose proof (mem_In _ _ (closed_contains_reachable _ _ _ H H2 s Hr)) as Hin.
-  rewrite forallb_forall in H1. specialize (H1 s Hin).
-  repeat (apply andb_true_iff in H1 as [H1 ?H]).
-  split; [apply has_enabled_step; exact H1|]. split; [assumption|]. split; [assumption|].
-  intros i Hi. rewrite forallb_forall in H0.
+  destruct (mem (init roles) _ && closed true _) eqn:H12; [|discriminate].
+  apply andb_true_iff in H12 as [H1 H2].
+  destruct (forallb _ (all_states _)) eqn:H3 in H; [|discriminate].
+  pose proof (mem_In _ _ (closed_contains_reachable _ _ _ H1 H2 s Hr)) as Hin.
+  rewrite forallb_forall in H3. specialize (H3 s Hin).
+  repeat (apply andb_true_iff in H3 as [H3 ?H]).
+  split; [apply has_enabled_step; exact H3|]. split; [assumption|]. split; [assumption|].
+  intros i Hi. rewrite forallb_forall in H.
   assert (Hi' : In i (seq 0 (length roles))) by (apply in_seq; lia).
-  specialize (H0 i Hi').
+  specialize (H i Hi').
   destruct (fst (can_reach true kr (thread_in_cs i) _)) eqn:E; [|discriminate].
   eapply can_reach_sound; eauto.
 Qed.
@@ -274,12 +276,14 @@ Lemma check_once_sound k kr roles : check_once k kr roles = true ->
     EF false all_finished s.
 Proof.
   unfold check_once. intros H s Hr.
-  repeat (apply andb_true_iff in H as [H ?H]).
-  pose proof (mem_In _ _ (closed_contains_reachable _ _ _ H H2 s Hr)) as Hin.
-  rewrite forallb_forall in H1. specialize (H1 s Hin).
-  repeat (apply andb_true_iff in H1 as [H1 ?H]).
+  destruct (mem (init roles) _ && closed false _) eqn:H12; [|discriminate].
+  apply andb_true_iff in H12 as [H1 H2].
+  destruct (forallb _ (all_states _)) eqn:H3 in H; [|discriminate].
+  pose proof (mem_In _ _ (closed_contains_reachable _ _ _ H1 H2 s Hr)) as Hin.
+  rewrite forallb_forall in H3. specialize (H3 s Hin).
+  repeat (apply andb_true_iff in H3 as [H3 ?H]).
   split.
-  { apply orb_true_iff in H1 as [H1|H1]; [left; exact H1 | right; apply has_enabled_step; exact H1]. }
+  { apply orb_true_iff in H3 as [H3|H3]; [left; exact H3 | right; apply has_enabled_step; exact H3]. }
   split; [assumption|]. split; [assumption|].
   destruct (fst (can_reach false kr all_finished _)) eqn:E; [|discriminate].
   eapply can_reach_sound; eauto.
